@@ -38,7 +38,7 @@ RULE = (
 )
 ASSUMPTIONS = [
     "time.monotonic is virtual inside the shard process; asyncio.wait's 2 s timeout and backup launch decisions run on virtual time",
-    "the retry budget is what the executor configures (ThreadsExecutor: its retries option; ProcessesExecutor configures none)",
+    "the retry budget is the executor's retries option (default 2, i.e. three attempts as documented) on both ThreadsExecutor and ProcessesExecutor",
 ]
 NSHARDS = {"quick": 16, "thorough": 32}
 
@@ -319,10 +319,52 @@ def part_b(res, workdir):
                                           "msg": f"retries={retries}, k={k}: faulty key accessed {state['n']} times, expected {min(k, retries + 1) + (1 if ok_expected else 0)}",
                                           "facts": {"retries": retries, "k": k}})
             shutil.rmtree(wd, ignore_errors=True)
+    # (B3) the same end to end on the ProcessesExecutor: one worker process (so the fault counter is in one place),
+    # injector and tracer installed in the worker through sitecustomize + environment
+    from cubed.runtime.executors.local import ProcessesExecutor
+
+    site = os.path.join(os.path.dirname(os.path.dirname(os.path.abspath(__file__))), "vlib", "site")
+    for retries, k in ((2, 0), (2, 2), (2, 3), (0, 1)):
+        wd = os.path.join(workdir, f"b3_{retries}_{k}")
+        os.makedirs(wd, exist_ok=True)
+        data = np.arange(36.0).reshape(6, 6)
+        zp = os.path.join(wd, "in.zarr")
+        z = zarr.create_array(store=zp, shape=data.shape, dtype=data.dtype, chunks=(3, 3), overwrite=True)
+        z[...] = data
+        spec = cubed.Spec(work_dir=wd, allowed_mem="500MB")
+        b = xp.negative(cubed.from_zarr(zp, spec=spec)) + 1
+        sink = os.path.join(wd, "worker-trace.jsonl")
+        newenv = {"VERIF_TRACE_FILE": sink, "VERIF_TRACE_PARENT": str(os.getpid()), "VERIF_INJECT": f"failkey:{k}:in.zarr:c/1/0",
+                  "PYTHONPATH": site + os.pathsep + os.environ.get("PYTHONPATH", "")}
+        saved = {kk: os.environ.get(kk) for kk in newenv}
+        os.environ.update(newenv)
+        err = None
+        try:
+            r = b.compute(executor=ProcessesExecutor(retries=retries, max_workers=1))
+        except BaseException as e:  # noqa
+            err = e
+        finally:
+            for kk, vv in saved.items():
+                if vv is None:
+                    os.environ.pop(kk, None)
+                else:
+                    os.environ[kk] = vv
+        accesses = sum(1 for e in storetrace.read_sink(sink) if e.get("op") == "get" and e.get("key") == "c/1/0" and str(e.get("root", "")).endswith("in.zarr"))
+        res["evaluations"] += 1
+        res["counters"]["end_to_end_fault_cases_processes"] += 1
+        res["counters"]["accesses_to_faulty_key"] += accesses
+        ok_expected = k <= retries
+        good = (err is None and ok_expected and np.array_equal(r, -data + 1)) or (err is not None and not ok_expected and "injected storage fault" in repr(err) + str(getattr(err, "__cause__", "")))
+        if not good:
+            res["violations"].append({"property": PROPERTY, "kind": "end-to-end-retry-processes", "case": {"retries": retries, "k": k, "executor": "processes"},
+                                      "msg": f"ProcessesExecutor(retries={retries}), chunk read fails first {k} times: outcome {type(err).__name__ if err else 'success'} "
+                                             f"({str(err)[:120] if err else ''}), accesses={accesses}; expected {'success' if ok_expected else 'the injected OSError'}",
+                                      "facts": {"retries": retries, "k": k}})
+        shutil.rmtree(wd, ignore_errors=True)
 
 
 EXTRA = ("scenarios", "with_failure_or_straggler", "finished_normally", "raised_scripted_error", "backups_launched",
-         "simultaneous_completions", "retry_wrapper_cases", "end_to_end_fault_cases", "accesses_to_faulty_key")
+         "simultaneous_completions", "retry_wrapper_cases", "end_to_end_fault_cases", "end_to_end_fault_cases_processes", "accesses_to_faulty_key")
 
 
 def run_one(sc, res):
@@ -398,7 +440,7 @@ def finalize(tier, merged):
             ("scripted scenarios executed on the real scheduler", c.get("scenarios", 0), 15000 if tier == "quick" else 380000),
             ("backup tasks launched by the scheduler", c.get("backups_launched", 0), 3000 if tier == "quick" else 80000),
             ("original and backup completing at the same virtual instant", c.get("simultaneous_completions", 0), 500 if tier == "quick" else 15000),
-            ("retry-wrapper and end-to-end fault cases", c.get("retry_wrapper_cases", 0) + c.get("end_to_end_fault_cases", 0), 24, ),
+            ("retry-wrapper and end-to-end fault cases", c.get("retry_wrapper_cases", 0) + c.get("end_to_end_fault_cases", 0) + c.get("end_to_end_fault_cases_processes", 0), 28, ),
         ],
         "assumptions": ASSUMPTIONS,
     }
